@@ -11,6 +11,9 @@ use std::{
 	sync::{Arc, RwLock},
 };
 
+/// The flag behind tickets, for conformance checks that drive it directly.
+pub use crate::flag::Flag;
+
 pub type Sink = Arc<dyn Fn(&'static str, usize, usize) + Send + Sync>;
 
 thread_local! {
